@@ -10,6 +10,7 @@ print(" ".join(sorted(set(re.findall(r"(C\d\d):violations=[1-9]", m.get("confirm
 PY
 )
   [ -z "$ids" ] && ids=$(echo $id | cut -c1-3 | tr a-z A-Z)
+  if grep -q '"neutralised"' $d/meta.json; then echo "== $id -> neutralised by a later fix (see meta.json), skipped"; continue; fi
   echo "== $id -> $ids"
   tools/with_patch.sh $d/patch.diff $ids | cut -c1-160
 done
